@@ -26,6 +26,13 @@ Definition is_vlit (t : ttype) : bool :=
 Definition ends_line_ty (t : ttype) : bool := match t with COMMENT | DESCRIPTION => true | _ => false end.
 Definition v_ends_line (v : value) : bool := match v with VTok t _ _ => ends_line_ty (ty t) | VArr _ _ _ => false end.
 
+(* nesting of arrays *)
+Fixpoint vdepth (v : value) : N :=
+  match v with
+  | VTok _ _ _ => 0
+  | VArr vs _ _ => N.succ (fold_right (fun x m => N.max (vdepth x) m) 0 vs)
+  end.
+
 Inductive vlx : value -> Prop :=
 | vlx_tok t s e : tok_lx t -> is_vlit (ty t) = true -> vlx (VTok t s e)
 | vlx_arr vs s e : Forall (fun v => vlx v /\ v_ends_line v = false) vs -> vlx (VArr vs s e).
@@ -56,7 +63,8 @@ Definition hlx (h : header) : Prop :=
   end.
 Definition alx (a : assign) : Prop :=
   ref_ok (akey a) /\ vlx (avalue a) /\ comment_lx (acomment a) /\
-  (v_ends_line (avalue a) = true -> acomment a = None).
+  (v_ends_line (avalue a) = true -> acomment a = None) /\
+  vdepth (avalue a) <= max_value_depth.
 Definition dlx (d : descr) : Prop :=
   dtoks d <> [] /\ Forall (fun t => ty t = DESCRIPTION /\ tok_lx t) (dtoks d) /\
   dvalue d = join_with 10 (map lit (dtoks d)).
@@ -186,31 +194,42 @@ Proof.
 Qed.
 
 (* values *)
-Definition value_lx_out (v : value) (s' : wstate) : Prop :=
-  vlx v /\ (v_ends_line v = true -> next_type s' = EOL \/ next_type s' = EOF).
+Definition value_lx_out (depth : N) (v : value) (s' : wstate) : Prop :=
+  vlx v /\ (v_ends_line v = true -> next_type s' = EOL \/ next_type s' = EOF) /\
+  depth + vdepth v <= max_value_depth.
 
-Lemma pop_elems_lx pv (bound : nat) op :
-  (forall s2 v s3, wst_ok inp s2 -> wlive s2 -> tinv s2 -> (length (wrest s2) < bound)%nat -> pv s2 = WOk v s3 ->
-                   value_lx_out v s3 /\ wstep inp s2 s3) ->
-  forall fuel2 acc s2 v s', wst_ok inp s2 -> wlive s2 -> tinv s2 -> (length (wrest s2) < bound)%nat ->
-  Forall (fun v => vlx v /\ v_ends_line v = false) acc ->
-  pop_elems pv fuel2 op acc s2 = WOk v s' -> value_lx_out v s'.
+Definition elems_depth (vs : list value) : N := fold_right (fun x m => N.max (vdepth x) m) 0 vs.
+Lemma elems_depth_app a b : elems_depth (a ++ b) = N.max (elems_depth a) (elems_depth b).
 Proof.
-  intros Hpv. induction fuel2 as [|f2 IH]; intros acc s2 v s' Hok Hl Ht Hb Hacc; cbn [pop_elems]; [discriminate|].
+  induction a as [|x r IH]; cbn [app].
+  - unfold elems_depth at 2. cbn. rewrite N.max_0_l. reflexivity.
+  - unfold elems_depth in *. cbn [fold_right]. rewrite IH. rewrite N.max_assoc. reflexivity.
+Qed.
+
+Lemma pop_elems_lx pv (bound : nat) (d1 : N) op :
+  (forall s2 v s3, wst_ok inp s2 -> wlive s2 -> tinv s2 -> (length (wrest s2) < bound)%nat -> pv s2 = WOk v s3 ->
+                   value_lx_out d1 v s3 /\ wstep inp s2 s3) ->
+  forall fuel2 acc s2 v s', wst_ok inp s2 -> wlive s2 -> tinv s2 -> (length (wrest s2) < bound)%nat ->
+  Forall (fun v => vlx v /\ v_ends_line v = false) acc -> d1 + elems_depth acc <= max_value_depth ->
+  pop_elems pv fuel2 op acc s2 = WOk v s' ->
+  vlx v /\ v_ends_line v = false /\ exists vs, v = VArr vs (tstart op) (current_pos s') /\ d1 + elems_depth vs <= max_value_depth.
+Proof.
+  intros Hpv. induction fuel2 as [|f2 IH]; intros acc s2 v s' Hok Hl Ht Hb Hacc Hda; cbn [pop_elems]; [discriminate|].
   destruct (pv s2) as [v0 s3|t s3|p|] eqn:Ev; try discriminate. cbn [wbind].
-  destruct (Hpv s2 v0 s3 Hok Hl Ht Hb Ev) as [[Hv0 He0] H23].
+  destruct (Hpv s2 v0 s3 Hok Hl Ht Hb Ev) as [(Hv0 & He0 & Hd0) H23].
   pose proof (wstep_tinv _ _ H23 Ht) as Ht3.
   destruct (pop_token_spec inp s3 (ws_ok _ _ _ H23) (wstep_live _ _ _ H23)) as (t4 & s4 & E4 & H34 & _).
-  (* the element is not a line ender: a comma or a bracket follows it *)
   assert (Hne : tt_eqb (next_type s3) COMMA = true \/ tt_eqb (next_type s3) RBRACK = true -> v_ends_line v0 = false).
   { intros Hc. destruct (v_ends_line v0) eqn:Ee; [|reflexivity]. exfalso.
     destruct (He0 eq_refl) as [H|H]; rewrite H in Hc; destruct Hc as [Hc|Hc]; discriminate. }
+  assert (Hda' : d1 + elems_depth (acc ++ [v0]) <= max_value_depth).
+  { rewrite elems_depth_app. unfold elems_depth at 2. cbn. lia. }
   destruct (tt_eqb (next_type s3) COMMA) eqn:Ec.
-  - rewrite E4. cbn [wbind]. apply IH; [apply H34|eapply wstep_live; eauto|eapply wstep_tinv; eauto| |].
+  - rewrite E4. cbn [wbind]. apply IH; [apply H34|eapply wstep_live; eauto|eapply wstep_tinv; eauto| | |exact Hda'].
     + pose proof (ws_len _ _ _ H23). pose proof (ws_len _ _ _ H34). lia.
     + apply Forall_app. split; [exact Hacc|]. constructor; [|constructor]. split; [exact Hv0|]. apply Hne. auto.
   - destruct (tt_eqb (next_type s3) RBRACK) eqn:Eb; rewrite E4; cbn [wbind]; [|discriminate].
-    intros [= <- <-]. split; [|discriminate]. constructor.
+    intros [= <- <-]. split; [|split; [reflexivity|eexists; split; [reflexivity|exact Hda']]]. constructor.
     apply Forall_app. split; [exact Hacc|]. constructor; [|constructor]. split; [exact Hv0|]. apply Hne. auto.
 Qed.
 
@@ -224,22 +243,23 @@ Proof.
   cbn [wprev] in C. apply C. exact He.
 Qed.
 
-Lemma pop_value_lx : forall fuel s v s', wst_ok inp s -> wlive s -> tinv s -> (length (wrest s) < fuel)%nat ->
-  pop_value fuel s = WOk v s' -> value_lx_out v s' /\ wstep inp s s'.
+Lemma pop_value_lx : forall fuel depth s v s', wst_ok inp s -> wlive s -> tinv s -> (length (wrest s) < fuel)%nat ->
+  depth <= max_value_depth ->
+  pop_value fuel depth s = WOk v s' -> value_lx_out depth v s' /\ wstep inp s s'.
 Proof.
-  induction fuel as [|f IH]; intros s v s' Hok Hl Ht Hf; [lia|].
-  intros E. split; [|apply (pop_value_out inp (S f) s v s' Hok Hl Hf E)].
+  induction fuel as [|f IH]; intros depth s v s' Hok Hl Ht Hf Hdep; [lia|].
+  intros E. split; [|apply (pop_value_out inp (S f) depth s v s' Hok Hl Hf E)].
   revert E. cbn [pop_value].
   destruct (tt_eqb (next_type s) IDENT) eqn:E1.
   { apply tt_eqb_true in E1.
     destruct (pop_reference s) as [r s1|t s1|p|] eqn:Er; try discriminate. cbn [wbind]. intros [= <- <-].
-    split; [|discriminate]. constructor; [|reflexivity]. unfold tok_lx, ctyp. cbn. exact I. }
+    split; [|split; [discriminate|cbn; lia]]. constructor; [|reflexivity]. unfold tok_lx, ctyp. cbn. exact I. }
   destruct (is_literal (next_type s)) eqn:E2.
   { destruct (pop_token s) as [t s1|t s1|p|] eqn:Et; try discriminate. cbn [wbind]. intros [= <- <-].
     assert (Hn : next_type s <> EOF) by (intros H; rewrite H in E2; discriminate).
     assert (Hty : ty t = next_type s).
     { destruct (pop_token_spec inp s Hok Hl) as (t0 & s0 & E0 & _ & _ & Hty & _). rewrite Et in E0. injection E0 as <- <-. exact Hty. }
-    split.
+    split; [|split; [|cbn; lia]].
     - constructor; [eapply pop_lx; eauto|]. rewrite Hty. apply tt_eqb_false in E1.
       destruct (next_type s); try discriminate; try reflexivity. congruence.
     - cbn [v_ends_line]. intros He. eapply ender_after_pop; eauto. }
@@ -250,22 +270,25 @@ Proof.
   rewrite E. cbn [wbind].
   assert (Hr : wrest s <> []). { apply (next_type_not_eof inp); auto. rewrite E3. discriminate. }
   specialize (Hlen Hr).
+  destruct (N.leb max_value_depth depth) eqn:Edep; [discriminate|]. apply N.leb_gt in Edep.
   destruct (tt_eqb (next_type s1) RBRACK) eqn:E4.
   { destruct (pop_token s1) as [t2 s2|t2 s2|p|] eqn:E2'; try discriminate. cbn [wbind]. intros [= <- <-].
-    split; [constructor; constructor|discriminate]. }
-  apply (pop_elems_lx (pop_value f) f op).
-  - intros s2 v0 s3 Hok2 Hl2 Ht2 Hb Ev. apply IH; assumption.
+    split; [constructor; constructor|split; [discriminate|cbn; lia]]. }
+  intros E5.
+  destruct (pop_elems_lx (pop_value f (N.succ depth)) f (N.succ depth) op) with (fuel2 := S (length (wrest s1))) (acc := @nil value)
+    (s2 := s1) (v := v) (s' := s') as (Hv & Hel & vs & Hvs & Hdv); auto.
+  - intros s2 v0 s3 Hok2 Hl2 Ht2 Hb Ev. eapply IH; eauto. lia.
   - apply Hst.
   - eapply wstep_live; eauto.
   - eapply wstep_tinv; eauto.
   - lia.
-  - constructor.
+  - cbn. lia.
+  - split; [exact Hv|]. split; [rewrite Hel; discriminate|]. subst v. cbn [vdepth]. fold (elems_depth vs). lia.
 Qed.
 
-
 Lemma pop_value_top_lx s v s' : wst_ok inp s -> wlive s -> tinv s -> pop_value_top s = WOk v s' ->
-  value_lx_out v s' /\ wstep inp s s'.
-Proof. intros. apply (pop_value_lx (S (length (wrest s)))); auto. Qed.
+  value_lx_out 0 v s' /\ wstep inp s s'.
+Proof. intros. apply (pop_value_lx (S (length (wrest s))) 0); auto. unfold max_value_depth. lia. Qed.
 
 (* a popped operator token has its one-rune literal *)
 Lemma op_tok_lit t typ c : tok_lx t -> ty t = typ -> op_of c = Some typ ->
@@ -382,10 +405,10 @@ Proof.
   rewrite E. cbn [wbind]. destruct (negb (tt_eqb (ty t) ASSIGN)); [discriminate|].
   pose proof (wstep_tinv _ _ Hst Ht) as Ht1.
   destruct (pop_value_top s1) as [v s2|t2 s2|p|] eqn:Ev; try discriminate. cbn [wbind].
-  destruct (pop_value_top_lx s1 v s2 (ws_ok _ _ _ Hst) (wstep_live _ _ _ Hst) Ht1 Ev) as [[Hv He] H12].
+  destruct (pop_value_top_lx s1 v s2 (ws_ok _ _ _ Hst) (wstep_live _ _ _ Hst) Ht1 Ev) as [(Hv & He & Hdp) H12].
   destruct (end_statement s2) as [c s3|t3 s3|p|] eqn:Ee; try discriminate. cbn [wbind].
   destruct (end_statement_lx s2 c s3 (ws_ok _ _ _ H12) (wstep_live _ _ _ H12) (wstep_tinv _ _ H12 Ht1) Ee) as [Hc Hn].
-  intros [= <- _]. cbn. split; [exact Hr|]. split; [exact Hv|]. split; [exact Hc|].
+  intros [= <- _]. cbn [frag_lx alx akey avalue acomment]. split; [exact Hr|]. split; [exact Hv|]. split; [exact Hc|]. split; [|rewrite N.add_0_l in Hdp; exact Hdp].
   intros Hel. apply Hn. apply He. exact Hel.
 Qed.
 
